@@ -20,7 +20,7 @@ RULE = (
     "machines_per_operation as int or range with max <= smallest machine "
     "count, allow_recirculation, allow_less_jobs_than_machines (when False "
     "the ranges satisfy jobs_lo >= machines_lo), name_suffix, seed (0 "
-    "included), iteration_limit 0..12 - x a usage pattern (copied = a deep copy / pickle round trip of the generator continues the sequence; helpers = public create_random_operation() calls with and without a pool between instances; sequential, two "
+    "included), iteration_limit 0..12 - x a usage pattern (tight = fewer jobs than machines disallowed with a job range that dips below the machine range: unsatisfiable draws raise, produced instances are checked; copied = a deep copy / pickle round trip of the generator continues the sequence; helpers = public create_random_operation() calls with and without a pool between instances; sequential, two "
     "generators interleaved, other users of the global random module in "
     "between, generate() mixed with iteration on one of them, explicit generate(num_jobs=..), generate(num_jobs=.., "
     "num_machines=..) calls). Oracle per generated instance: job count in "
@@ -73,11 +73,34 @@ def _params(draw):
     }
 
 
+def fixed_cases(tier):
+    """More than 30 machines (sizes the generated parameters never reach)."""
+    return [
+        {
+            "params": {
+                "num_jobs": [2, 4],
+                "num_machines": [31, 34],
+                "duration_range": [1, 9],
+                "allow_less_jobs_than_machines": True,
+                "allow_recirculation": recirc,
+                "machines_per_operation": 1,
+                "name_suffix": "wide",
+                "seed": 3,
+                "iteration_limit": 2,
+            },
+            "pattern": "sequential",
+            "n": 4,
+            "extra": [1, 2],
+        }
+        for recirc in (False, True)
+    ]
+
+
 def strategy(tier):
     return st.fixed_dictionaries(
         {
             "params": _params(),
-            "pattern": gen.pick(["sequential", "interleaved", "global_rng", "explicit", "mixed", "helpers", "copied"]),
+            "pattern": gen.pick(["sequential", "interleaved", "global_rng", "explicit", "mixed", "helpers", "copied", "tight"]),
             "n": st.integers(1, 10),
             "extra": st.lists(st.integers(0, 1000), min_size=1, max_size=6),
         }
@@ -180,6 +203,21 @@ def check_case(case, ctx):
         for i in range(n):
             seq2.append(g2.generate())
             random.randint(0, 10)
+    elif pattern == "tight":
+        # fewer jobs than machines disallowed while the job range dips below
+        # the machine range: a draw that cannot be satisfied raises (no
+        # instance); whatever IS produced has to respect every clause
+        tight = dict(params, allow_less_jobs_than_machines=False)
+        tight["num_jobs"] = [max(1, m_lo - 1 - extra[0] % 2), max(j_hi, m_lo)]
+        params = tight
+        j_lo, j_hi = span(params["num_jobs"])
+        g1, g2 = make(params), make(params)
+        for g, seq in ((g1, seq1), (g2, seq2)):
+            for _ in range(n + 3):
+                try:
+                    seq.append(g.generate())
+                except ValueError:
+                    ctx.count("tight_no_instance")
     elif pattern == "copied":
         # the generator is deep-copied / pickled after some instances; the
         # copy carries the seed's stream on exactly like the original
@@ -259,6 +297,11 @@ def check_case(case, ctx):
         f"two generators with seed {params['seed']} and equal parameters diverge under pattern "
         f"'{pattern}' at index {next((i for i, (a, b) in enumerate(zip(f1, f2)) if a != b), None)}",
     )
+    if pattern == "tight":
+        ctx.label("pattern=tight")
+        ctx.count("instances", len(seq1) + len(seq2))
+        ctx.nontrivial = bool(seq1)
+        return
     # iteration protocol
     g3 = make(params)
     lim = params["iteration_limit"]
